@@ -119,7 +119,7 @@ theorem checkNext_spec (h : PostV c0 c) {vt : ValueTypes} (hvt : AllIn c0 vt) (o
     · exact Holds.pure ⟨h, hvt.of_cons⟩
 
 theorem variableIdentifier_spec (h : PostV c0 c) (hn : Fits (k + 2) c0 n) :
-    Holds (variableIdentifier n) c (fun x c' => c = c' ∧ ∀ name loc, x = some (name, loc) → LocIn c0 loc) := by
+    Holds (variableIdentifier n) c (fun x c' => c = c' ∧ ∀ name loc, x = some (name, loc) → TokIn c0 loc name) := by
   unfold variableIdentifier
   split
   · rename_i inner hinner
